@@ -3,6 +3,7 @@ import PGV.Props.Facts
 import PGV.Proofs.LangEq
 import PGV.Proofs.Size
 import PGV.Proofs.EmailEq
+import PGV.Proofs.Accepts
 
 /-!
 # C05 — format and content rules accept exactly their documented language
@@ -23,40 +24,11 @@ Three layers:
 namespace PGV.Props.C05
 open PGV PGV.Model PGV.Spec.Lang
 
-theorem isDigit_eq (c : UInt8) : Model.Lang.isDigit c = digit c := rfl
-
 /-- `^\d+$` -/
-theorem C05_int (s : Bytes) : Model.Lang.intRe s = Spec.Lang.int s := by
-  simp [Model.Lang.intRe, Spec.Lang.int, digits, isDigit_eq]
-  rfl
-
-theorem digit_of_range (c : UInt8) (h : (51 ≤ c && c ≤ 57) = true) : digit c = true := by
-  simp only [digit, Bool.and_eq_true, decide_eq_true_eq] at h ⊢
-  exact ⟨Nat.le_trans (by decide) h.1, h.2⟩
+theorem C05_int (s : Bytes) : Model.Lang.intRe s = Spec.Lang.int s := PGV.Proofs.LangEq.int_eq s
 
 /-- `^1[3-9]\d{9}$`: 11 digits, first `1`, second in `3…9` -/
-theorem C05_phone (s : Bytes) : Model.Lang.phoneRe s = phone s := by
-  unfold Model.Lang.phoneRe phone
-  split
-  · rename_i c rest
-    simp only [List.length_cons, List.all_cons, List.getElem?_cons_zero, List.getElem?_cons_succ]
-    have hd : digit 49 = true := by decide
-    by_cases hc : (51 ≤ c && c ≤ 57) = true
-    · have hcd := digit_of_range c hc
-      have e : (rest.length + 1 + 1 == 11) = (rest.length == 9) := by
-        by_cases h : rest.length = 9 <;> simp [h] <;> omega
-      simp only [hc, hd, hcd, Bool.true_and, e, beq_self_eq_true, Bool.and_true]
-      rfl
-    · have hc' : (51 ≤ c && c ≤ 57) = false := by simpa using hc
-      simp [hc']
-  · rename_i hne
-    -- not of the shape `1 :: c :: rest`
-    match s, hne with
-    | [], _ => rfl
-    | [a], _ => simp
-    | a :: c :: rest, hne =>
-      have ha : a ≠ 49 := fun e => hne c rest (by rw [e])
-      simp [ha]
+theorem C05_phone (s : Bytes) : Model.Lang.phoneRe s = phone s := PGV.Proofs.LangEq.phone_eq s
 
 /-- `^\d+\.\d+$`: digits, exactly one `.`, digits — for every byte string (the historical defect was an unescaped dot) -/
 theorem C05_float (s : Bytes) : Model.Lang.floatRe s = Spec.Lang.float s := PGV.Proofs.LangEq.float_eq s
@@ -125,6 +97,45 @@ theorem C05_verdict_float (ext : Ext) (text obj field s : Bytes) :
   | false =>
     refine ⟨_, by simp; rfl, ?_⟩
     simp [PGV.Proofs.Size.violClause_ne_nil]
+
+/-! ### the whole table of rules that need no residual: model verdict = `Spec.Lang.accepts`
+
+`Spec.Lang.accepts text s` is what the driver evaluates on every probe of the `lang` stream against
+the implementation.  For rule texts of the documented shape `key[=arg][|message]` (`mkText`) and
+every string, the function registered under the key writes a clause exactly when `accepts` says the
+string is outside the language — `in` / `include` with their quote-protected options (the splitter's
+refinement of the quote-aware pieces), `ints` with default or custom separator (`strings.Split` with
+a skip counter = the direct recursion), `unique`, `prefix`, `suffix` and the five patterns. -/
+
+def pureKeys : List Bytes :=
+  [b! "phone", b! "email", b! "idcard", b! "int", b! "float", b! "in", b! "include", b! "ints", b! "unique", b! "prefix", b! "suffix"]
+
+theorem C05_accepts_sound (ext : Ext) (obj field s key arg msg : Bytes) (b : Bool)
+    (hk : key ∈ pureKeys) (hb : BAR ∉ arg)
+    (h : accepts (mkText key arg msg) s = some b) :
+    ∃ run, builtin key = some (.fn run) ∧
+      PGV.Proofs.Accepts.Verdict (run ext (mkText key arg msg) obj field (.str s)) b := by
+  open PGV.Proofs.Accepts in
+  simp only [pureKeys, List.mem_cons, List.not_mem_nil, or_false] at hk
+  rcases hk with e | e | e | e | e | e | e | e | e | e | e <;> subst e
+  · exact sound_phone ext obj field s arg msg b ⟨by decide, by decide, hb⟩ h
+  · exact sound_email ext obj field s arg msg b ⟨by decide, by decide, hb⟩ h
+  · exact sound_idcard ext obj field s arg msg b ⟨by decide, by decide, hb⟩ h
+  · exact sound_int ext obj field s arg msg b ⟨by decide, by decide, hb⟩ h
+  · exact sound_float ext obj field s arg msg b ⟨by decide, by decide, hb⟩ h
+  · exact sound_in ext obj field s arg msg b ⟨by decide, by decide, hb⟩ h
+  · exact sound_include ext obj field s arg msg b ⟨by decide, by decide, hb⟩ h
+  · exact sound_ints ext obj field s arg msg b ⟨by decide, by decide, hb⟩ h
+  · exact sound_unique ext obj field s arg msg b ⟨by decide, by decide, hb⟩ h
+  · exact sound_prefix ext obj field s arg msg b ⟨by decide, by decide, hb⟩ h
+  · exact sound_suffix ext obj field s arg msg b ⟨by decide, by decide, hb⟩ h
+
+-- the hypothesis is satisfiable, with quoted options and a custom separator
+example : accepts (mkText (b! "in") (b! "(a/'b/c'/d)") (b! "one of them")) (b! "b/c") = some true
+    ∧ accepts (mkText (b! "in") (b! "(a/'b/c'/d)") []) (b! "b") = some false
+    ∧ accepts (mkText (b! "ints") (b! "'--'") []) (b! "1--22--333") = some true
+    ∧ accepts (mkText (b! "ints") [] []) (b! "1,,2") = some false
+    ∧ mkText (b! "in") (b! "(a/'b/c'/d)") (b! "one of them") = b! "in=(a/'b/c'/d)|one of them" := by decide
 
 /-! ### the layout builder `GetTimeFmt` -/
 
